@@ -16,7 +16,9 @@
      - for a point inserted inside the hull, a facet WITH the new vertex is in at
        most as many simplices as the ridge under it has faces of the cavity
        boundary; hence a cavity whose boundary is a closed pseudo-manifold keeps
-       the hull property for every facet (C03_closed_cavity_keeps_hull_property)
+       the hull property for every facet (C03_closed_cavity_keeps_hull_property);
+       on both paths a pseudo-manifold link of the new vertex does
+       (C03_link_manifold_keeps_hull_property)
      - a facet that does not contain the vertex being inserted is in at most two
        simplices afterwards if it was before; so when a triangulation with the hull
        property gets a facet into three or more simplices, that facet contains the
@@ -127,6 +129,33 @@ Section C03.
     broken_faces (all_faces (simplices (fst (add_point d t p hint o)))) = false.
   Proof. exact (@closed_cavity_keeps_hull_property P d). Qed.
 
+  (* both paths of add_point (inside the hull and hull extension): if the link
+     of the new vertex -- the simplices around it with the vertex removed -- is a
+     pseudo-manifold, EVERY facet of the triangulation is in at most two
+     simplices.  Together with C03_first_overlap_at_new_vertex: the hull
+     property can only be lost through the link of the vertex just inserted. *)
+  Theorem C03_link_manifold_keeps_hull_property : forall (vs : list P) ss (h : list (op P)) p hint o,
+    wf_init vs ss -> (forall s, In s ss -> sorted s) ->
+    legal d (init vs ss) (h ++ [AddPoint p hint o]) = true ->
+    let t := reach d vs ss h in
+    let t' := fst (add_point d t p hint o) in
+    broken_faces (all_faces (simplices t)) = false ->
+    (forall r, cf r (link_of (nverts t) (simplices t')) <= 2) ->
+    broken_faces (all_faces (simplices t')) = false.
+  Proof. exact (@link_manifold_keeps_hull_property P d). Qed.
+
+  (* conversely: with the hull property the link of the new vertex is a
+     pseudo-manifold, so (given the hull property before) the hull property
+     after an insertion is EQUIVALENT to a pseudo-manifold link *)
+  Theorem C03_hull_property_gives_link_manifold : forall (vs : list P) ss (h : list (op P)) p hint o,
+    wf_init vs ss -> (forall s, In s ss -> sorted s) ->
+    legal d (init vs ss) (h ++ [AddPoint p hint o]) = true ->
+    let t := reach d vs ss h in
+    let t' := fst (add_point d t p hint o) in
+    broken_faces (all_faces (simplices t')) = false ->
+    forall r, cf r (link_of (nverts t) (simplices t')) <= 2.
+  Proof. exact (@hull_property_gives_link_manifold P d). Qed.
+
   Theorem C03_simplices_sorted_nodup : forall (vs : list P) ss (h : list (op P)) p hint o,
     wf_init vs ss -> (forall s, In s ss -> sorted s) ->
     legal d (init vs ss) (h ++ [AddPoint p hint o]) = true ->
@@ -206,3 +235,5 @@ Print Assumptions C03_old_facets_stay_le2.
 Print Assumptions C03_first_overlap_at_new_vertex.
 Print Assumptions C03_simplices_sorted_nodup.
 Print Assumptions C03_closed_cavity_keeps_hull_property.
+Print Assumptions C03_link_manifold_keeps_hull_property.
+Print Assumptions C03_hull_property_gives_link_manifold.
